@@ -76,6 +76,40 @@ def run_mc(rep, which, maxops, maxt, slice_, timeout):
     return complete
 
 
+IMPL_INVARIANTS = """INVARIANT NoOverflowI
+INVARIANT Inv_Refines
+INVARIANT Inv_C08_NothingBeyondNow
+INVARIANT Inv_Flags
+PROPERTY Act_C08_UpdateIdempotent
+PROPERTY Act_C08_HistoryFrozen
+VIEW View
+CHECK_DEADLOCK FALSE
+"""
+# refinement check of the lazy update machinery (BtImpl under BtAbs): quick / thorough configurations
+IMPL_MC = {"quick": [("F2fix", 2, 2, 1), ("N1fix", 2, 2, 1)],
+           "thorough": [("F2fix", 2, 2, 1), ("F2tier", 2, 2, 1), ("F2zero", 2, 2, 1), ("N1fix", 2, 2, 1), ("N1zero", 2, 2, 1), ("F2unit", 2, 3, 1), ("F2fix", 3, 2, 3)]}
+
+
+def run_mc_impl(rep, which, maxops, maxt, slice_, timeout):
+    d = tlcrun.scratch_dir()
+    cfg = os.path.join(d, "mc.cfg")
+    with open(cfg, "w") as fh:
+        fh.write('SPECIFICATION Spec\nCONSTANTS\n  Which = "%s"\n  MaxOps = %d\n  MaxT = %d\n  Slice = %d\n  Guarded = TRUE\n%s' % (which, maxops, maxt, slice_, IMPL_INVARIANTS))
+    try:
+        out, secs = tlcrun.run_tlc("MC_BtImpl", cfg=cfg, workers=common.NCPU, timeout=timeout)
+    finally:
+        import shutil
+
+        shutil.rmtree(d, ignore_errors=True)
+    gen, dist = tlcrun.stats(out)
+    complete = "Model checking completed. No error has been found" in out
+    err = re.search(r"Error: (Invariant|Action property|Temporal) ?(\S+)? ?(\S+)? is violated", out)
+    rep.add_tlc(gen, dist, key="design:MC_BtImpl (refinement of BtAbs)", config="Which=%s MaxOps=%d MaxT=%d Slice=%d" % (which, maxops, maxt, slice_), seconds=round(secs, 1), complete=complete)
+    if err or ("Error:" in out and not complete and "TIMEOUT" not in out):
+        rep.machinery_errors.append("design check MC_BtImpl %s failed: %s" % (which, (err.group(0) if err else out[-800:])))
+    return complete
+
+
 def _run_one(args):
     seed, idx, kw, lazy_p = args
     for i, rng, C, g in treegen.scenario_stream(seed, idx + 1, **kw):
@@ -251,6 +285,22 @@ def run(prop, tier, replay=None):
 
         fam, (nq, nt) = BT[prop]
         check_bt.stage(rep, prop, fam, nq if tier == "quick" else nt, known_db)
+    # the lazy update machinery: design-level refinement check and conformance of the
+    # live objects' private state with the implementation-shaped model
+    if prop == "C08":
+        import implconf
+
+        for which, mo, mt, sl in IMPL_MC["quick" if tier == "quick" else "thorough"]:
+            complete &= run_mc_impl(rep, which, mo, mt, sl, timeout=300 if tier == "quick" else 3000)
+        rep.cov["exhaustive"] = bool(complete)
+        try:
+            _, iv = implconf.stage(rep, 200 if tier == "quick" else 3000, seed)
+            nd = sum(1 for x in iv.values() if x["verdict"] == "DRIFT")
+            if nd:
+                print("NOTE: property=C08 the private state of %d recorded executions differs from the implementation-shaped model BtImpl "
+                      "(design-level results of MC_BtImpl no longer transfer to this code; see evidence impl_conformance)" % nd)
+        except tlcrun.TlcError as e:
+            rep.machinery_errors.append(str(e)[:1500])
     # the repository's own tests, run under the recorder, as a further source of traces
     if prop in REPOTESTS and (tier != "quick" or prop in REPOTESTS_QUICK) and os.environ.get("BT_VERIF_BUILD", "") != "compiled":
         import repotests
